@@ -99,7 +99,10 @@ impl Cache for MemoryStore {
                     if key_value.header.cas != record.header.cas {
                         Err(CacheError::KeyExists)
                     } else {
-                        record.header.cas += 1;
+                        record.header.cas = match record.header.cas.checked_add(1) {
+                            Some(cas) => cas,
+                            None => self.get_cas_id(),
+                        };
                         // keep the counter ahead of tokens derived from client values,
                         // so that it never hands out this one a second time
                         self.cas_id
@@ -111,7 +114,10 @@ impl Cache for MemoryStore {
                     }
                 }
                 None => {
-                    record.header.cas += 1;
+                    record.header.cas = match record.header.cas.checked_add(1) {
+                        Some(cas) => cas,
+                        None => self.get_cas_id(),
+                    };
                     self.cas_id
                         .fetch_max(record.header.cas.wrapping_add(1), Ordering::Release);
                     record.header.timestamp = self.timer.timestamp();
